@@ -30,11 +30,11 @@ def commit_trace(records, pos, vel, meta=None, start=0):
     out = []
     cur = 0
     for d in records[:start]:
-        if d["ev"] == "time":
+        if d["ev"] in ("time", "push"):
             last_time[d["hid"]] = d["t"]
     for d in records[start:]:
         ev = d["ev"]
-        if ev == "time":
+        if ev in ("time", "push"):
             last_time[d["hid"]] = d["t"]
         elif ev == "next":
             cur = d["hid"]
